@@ -12,6 +12,10 @@ variant the source has (`strictTerm`, generated).
 type byte, payload, a byte `ch` and LF (`ch ≠ LF`; `ch = CR` when `s`), length fields in any
 `btoi::<i64>` spelling, two bytes after a bulk payload (`CRLF` when `s`).  `Wf v` is what every
 in-memory value satisfies that `encode_resp` can frame (no LF in line payloads, lengths in range).
+`NestOk 0 v` says that every array of `v` (nil ones included) sits at a nesting depth the parser
+admits: `nesting v ≤ MAX_NESTING` when the source has a limit (`nestOk_zero_iff`), always true
+otherwise (`nestOk_of_unbounded`).  The two other source-derived switches (`maxNesting`,
+`capRemaining`) are constants that no proof unfolds: the theorems hold for every setting.
 -/
 namespace Um.Resp.C15
 open Um Um.Resp
@@ -20,20 +24,60 @@ open Um Um.Resp
 
 /-- **decoding the encoding of a value, followed by any bytes, yields that value and consumes
 exactly its bytes**: the packet's raw bytes are `encode v`, the buffer left is `rest`. -/
-theorem C15_roundtrip (s : Bool) (v : Resp) (rest : Bytes) (h : Wf v) :
+theorem C15_roundtrip (s : Bool) (v : Resp) (rest : Bytes) (h : Wf v) (hn : NestOk 0 v) :
     decodeVec s (encode v ++ rest) = .item v rest ∧
     ∃ idx, decodeIndexed s (encode v ++ rest) = .item ⟨idx, encode v⟩ rest ∧
       toRespVec (encode v) idx = some v ∧
       parse s (encode v ++ rest) = .ok (idx, (encode v).length) := by
   have ha := encode_accepted s v h
-  obtain ⟨idx, hp, hv⟩ := parse_complete ha rest
-  refine ⟨decodeVec_complete ha rest, idx, ?_, hv, hp⟩
+  obtain ⟨idx, hp, hv⟩ := parse_complete ha hn rest
+  refine ⟨decodeVec_complete ha hn rest, idx, ?_, hv, hp⟩
   rw [decodeIndexed_of_ok hp, List.take_left' rfl, List.drop_left' rfl]
 
 example : decodeVec false (encode (.arr [.bulk [97, 13, 10], .bulkNil, .arr [], .integer [49]]) ++ [43]) =
     .item (.arr [.bulk [97, 13, 10], .bulkNil, .arr [], .integer [49]]) [43] := by rfl
 example : Wf (.arr [.bulk [97, 13, 10], .bulkNil, .arr [], .integer [49]]) := by
-  simp [Wf, WfList, LF_val, capacityOverflow, respIndexSize, isizeMax, i64Max]
+  simp [Wf, WfList, LF_val, reservePanics, capacityOverflow, respIndexSize, isizeMax, i64Max]
+
+/-- the nesting hypothesis in the terms of the source: at most `MAX_NESTING` array levels (a nil
+array counts as one); no condition when the source has no limit -/
+theorem C15_nesting_bound (v : Resp) :
+    (∀ m, maxNesting = some m → (NestOk 0 v ↔ nesting v ≤ m)) ∧ (maxNesting = none → NestOk 0 v) :=
+  ⟨fun m hm => nestOk_zero_iff m hm v, fun hm => nestOk_of_unbounded hm v 0⟩
+
+/-- **the nesting limit is a property of everything decoded** and a value beyond it is rejected
+(an expected rejection, not a round-trip failure): its encoding never decodes to it. -/
+theorem C15_nesting (s : Bool) :
+    (∀ b p rest, decodeIndexed s b = .item p rest →
+      ∃ v, toRespVec p.data p.resp = some v ∧ NestOk 0 v) ∧
+    (∀ v rest rest', ¬ NestOk 0 v → decodeVec s (encode v ++ rest) ≠ .item v rest') := by
+  constructor
+  · intro b p rest h
+    obtain ⟨_, v, hv, _, hn⟩ := decodeIndexed_sound h
+    exact ⟨v, hv, hn⟩
+  · intro v rest rest' hn hd
+    obtain ⟨e1, e2, e3, e4⟩ := decodeVec_eq s (encode v ++ rest)
+    cases hi : decodeIndexed s (encode v ++ rest) with
+    | item p r =>
+      obtain ⟨v', hv', hd'⟩ := e1 p r hi
+      rw [hd] at hd'
+      simp only [Dec.item.injEq] at hd'
+      obtain ⟨h1, _⟩ := hd'
+      subst h1
+      obtain ⟨_, v'', hv'', _, hn''⟩ := decodeIndexed_sound hi
+      rw [hv'] at hv''; simp only [Option.some.injEq] at hv''; subst hv''
+      exact hn hn''
+    | none => rw [e2 hi] at hd; cases hd
+    | invalid => rw [e3 hi] at hd; cases hd
+    | panic => rw [e4 hi] at hd; cases hd
+
+/-- a chain of `k` arrays around an integer -/
+def chain : Nat → Resp
+  | 0 => .integer [49]
+  | k + 1 => .arr [chain k]
+
+example : nesting (chain 5) = 5 := by rfl
+example : decodeVec true (encode (chain 5) ++ [43]) = .item (chain 5) [43] := by rfl
 
 /-- the hypothesis of the round trip cannot be dropped: a line payload containing LF is framed
 by `encode_resp` into bytes that read back as something else -/
@@ -62,9 +106,10 @@ example : decodeIndexed false [63] = .invalid := by rfl
 
 /-- **every strict prefix of an encoding answers `Ok(None)`** — and `Ok(None)` leaves the buffer
 as it is (`Dec.none` carries no buffer; `drain` returns it unchanged). -/
-theorem C15_prefix (s : Bool) (v : Resp) (p q : Bytes) (h : Wf v) (hpq : encode v = p ++ q) (hq : q ≠ []) :
+theorem C15_prefix (s : Bool) (v : Resp) (p q : Bytes) (h : Wf v) (hn : NestOk 0 v) (hpq : encode v = p ++ q)
+    (hq : q ≠ []) :
     decodeIndexed s p = .none ∧ decodeVec s p = .none ∧ drain s p = ([], some p) := by
-  obtain ⟨_, idx, hfull, _, _⟩ := C15_roundtrip s v [] h
+  obtain ⟨_, idx, hfull, _, _⟩ := C15_roundtrip s v [] h hn
   rw [List.append_nil, hpq] at hfull
   obtain ⟨h1, h2, h3⟩ := decodeIndexed_ext (s := s) (b := p) q
   have hnone : decodeIndexed s p = .none := by
@@ -120,8 +165,9 @@ theorem C15_progress (s : Bool) (b : Bytes) (p : IndexedResp) (rest : Bytes)
     (h : decodeIndexed s b = .item p rest) : rest.length < b.length ∧ p.data ++ rest = b :=
   ⟨decodeIndexed_item_lt h, (decodeIndexed_sound h).1⟩
 
-/-- the only panic of a decode call is `Vec::with_capacity` overflowing (finding F4, property
-C16): `split_to` is in range, `to_resp_vec`'s `expect` never fires, the model's fuel is never
+/-- whatever the reservation policy: the only panic of a decode call is the reservation of
+`parse_array` overflowing (finding F4, property C16; unreachable with the cap, `C15_no_panic`):
+`split_to` is in range, `to_resp_vec`'s `expect` never fires, the model's fuel is never
 exhausted. -/
 theorem C15_panic_only_capacity (s : Bool) (b : Bytes) :
     (decodeVec s b = .panic ↔ parse s b = .error .capacity) ∧ parse s b ≠ .error .fuel := by
@@ -153,8 +199,24 @@ theorem C15_panic_only_capacity (s : Bool) (b : Bytes) :
     unfold decodeIndexed
     rw [h]
 
-example : parse false [42, 57, 50, 50, 51, 51, 55, 50, 48, 51, 54, 56, 53, 52, 55, 55, 53, 56, 48, 55, 13, 10] =
-    .error .capacity := by rfl
+/-- **with the capped reservation (`capRemaining`, the F4 fix) no decode call panics at all**:
+not `parse_resp`, not `split_to`, not `to_resp_vec`; the streams hand out no panic event.
+(Model assumption: `buf.len() * size_of::<RespIndex>() ≤ isize::MAX`, true of every buffer that
+exists, so that reserving `min(array_size, remaining)` elements cannot overflow.) -/
+theorem C15_no_panic (hc : capRemaining = true) (s : Bool) :
+    (∀ b, decodeIndexed s b ≠ .panic ∧ decodeVec s b ≠ .panic ∧ parse s b ≠ .error .capacity) ∧
+    (∀ cs, ∀ e ∈ (decodeStream s cs).1, e = Ev.panic → False) := by
+  have hp : ∀ b, decodeVec s b ≠ .panic := by
+    intro b h
+    exact parse_ne_capacity s hc b ((C15_panic_only_capacity s b).1.mp h)
+  have hi : ∀ b, decodeIndexed s b ≠ .panic := by
+    intro b h
+    exact hp b ((decodeVec_eq s b).2.2.2 h)
+  refine ⟨fun b => ⟨hi b, hp b, parse_ne_capacity s hc b⟩, ?_⟩
+  intro cs e he heq
+  unfold decodeStream at he
+  rw [run_eq_drain s cs [] (decodeIndexed_nil s), List.nil_append] at he
+  exact drain_no_panic s hi _ cs.flatten rfl e he heq
 
 /-! ## the hint machine -/
 
@@ -237,16 +299,17 @@ a bulk payload (finding F7), and — in both variants — any `btoi::<i64>` spel
 theorem C15_strict_partial (b : Bytes) (p : IndexedResp) (rest : Bytes)
     (h : decodeIndexed strictTerm b = .item p rest) :
     ∃ v, toRespVec p.data p.resp = some v ∧ Accepts strictTerm v p.data ∧ decodeVec strictTerm b = .item v rest := by
-  obtain ⟨_, v, hv, ha⟩ := decodeIndexed_sound h
+  obtain ⟨_, v, hv, ha, _⟩ := decodeIndexed_sound h
   obtain ⟨v', hv', hd⟩ := (decodeVec_eq strictTerm b).1 p rest h
   rw [hv] at hv'; simp only [Option.some.injEq] at hv'; subst hv'
   exact ⟨v, hv, ha, hd⟩
 
-/-- the spelling determines the value: no byte string is an accepted spelling of two values -/
-theorem C15_unambiguous (s : Bool) (v v' : Resp) (e : Bytes) (h : Accepts s v e) (h' : Accepts s v' e) :
-    v = v' := by
-  have a := decodeVec_complete h []
-  have b := decodeVec_complete h' []
+/-- the spelling determines the value: no byte string is an accepted spelling of two values
+(within the nesting limit) -/
+theorem C15_unambiguous (s : Bool) (v v' : Resp) (e : Bytes) (h : Accepts s v e) (h' : Accepts s v' e)
+    (hn : NestOk 0 v) (hn' : NestOk 0 v') : v = v' := by
+  have a := decodeVec_complete h hn []
+  have b := decodeVec_complete h' hn' []
   rw [a] at b
   simp only [Dec.item.injEq, and_true] at b
   exact b
